@@ -6,6 +6,7 @@ CONSTANTS
   WithPlans = FALSE
   BlockBudget = 1000
   MinDecls = 0
+  TypesOnly = FALSE
   CallsOnly = FALSE
   Rich = FALSE
 INVARIANTS ScopeWellFormed ReplayAgrees MergeIndependent
